@@ -17,7 +17,7 @@ PRELUDE = "".join('let T%d = std.contract.from_predicate (fun v => std.trace "T%
     "let A1 = T1 in\nlet A2 = A1 in\n" + \
     "let MkA = fun E => {f | Array E} in\nlet MkD = fun E => {f | {_ : E}} in\n"
 BASE_BINDS = "(bind 1 (opq 1)) (bind 2 (opq 2)) (bind 3 (opq 3)) (bind 4 (var 1)) (bind 5 (var 4)) (bind 7 (opq 70)) (bind 8 (opq 80))"
-FIELD = {0: "f", 1: "g"}
+FIELD = {0: "f", 1: "g", 2: "h"}
 
 
 def gen_leaf(rng):
@@ -114,7 +114,10 @@ def operand(cs, shadow, field_alias=None):
 def gen_value(rng, shape):
     if shape is None:
         return rng.weighted([(0, 4), (1, 2), (2, 2), (3, 1), (5, 2)])
-    return {k: gen_value(rng, shape[k]) for k in shape}
+    v = {k: gen_value(rng, shape[k]) for k in shape}
+    if rng.chance(1, 6):
+        v[2] = 0            # a field no record contract of this shape lists: only open contracts accept it
+    return v
 
 
 def nickel_V(v):
@@ -166,6 +169,8 @@ def attached(K, shadow, v, path, out, field_alias=None):
     if not isinstance(v, dict):
         out.append((path, "shape", v))
         return
+    if not op and any(k not in [f[0] for f in fs] for k in v):
+        out.append((path, "shape", v))          # a closed record contract rejects extra fields
     for (k, o, p, cs) in fs:
         if k in v:
             for c in cs:
@@ -275,7 +280,8 @@ def run(ck):
                 d, nd = runs["dedup"][i], runs["nodedup"][i]
                 if split_trace(d)[0] != split_trace(nd)[0] or (d.startswith("OK") and set(split_trace(d)[1]) != set(split_trace(nd)[1])):
                     ck.violation("dedup-drops-contract", "deduplication removed a contract that is not a duplicate: with dedup %s, without %s" % (d[:80], nd[:80]), rep2)
-                else:
+                elif focused_search(ck, c, prog, nk, rep2):
+                    pass
                     ck.obligation("correspondence:contract_eq-vs-model", "correspondence", False,
                                   "implementation deduplicates more than the model: %s\nimpl %s model %s" % (progsA[i], a, b))
             elif nr > nm:
@@ -323,6 +329,54 @@ def run(ck):
     ck.coverage["model_more_permissive_cases"] = nmore
     ck.coverage["rule"] = "case = two lists of contracts for field x (leaf predicates T1..T3 with std.trace, let-bound aliases A1=T1, A2=A1, operands optionally under `let T1 = T2`, a field-bound alias F1 (hidden field of one operand) optionally shadowing an outer `let F1`, parametrized record contracts `MkA = fun E => {f | Array E}` / `MkD = fun E => {f | {_ : E}}` instantiated with equal or different leaves, record contracts over a common shape with per-field contract lists, optional, default priority, open), the second list mostly a small mutation of the first (strict prefix, extension, flag flip, alias swap); plus a value of that shape. Non-trivial = record contracts or more than 2 contracts"
     ck.trusted += ["extraction: ExtrOcamlBasic only", "harness bin nkeval (pending=, trace, nodedup)", "python reference outcome in checks/c04.py"]
+
+
+def probe_values(shape):
+    """values of the case's shape that probe every way a dropped contract could matter: each leaf value, and an
+    extra field at each record level"""
+    if shape is None:
+        return [0, 1, 2, 3, 5]
+    if shape == "param":
+        return []
+    out = []
+    keys = sorted(shape)
+
+    def upd(d, k, x):
+        d2 = dict(d)
+        d2[k] = x
+        return d2
+    base = {k: (0 if shape[k] is None else {kk: 0 for kk in shape[k]}) for k in keys}
+    out.append(dict(base))
+    out.append(upd(base, 2, 0))
+    for k in keys:
+        if shape[k] is None:
+            for x in (1, 2, 3, 5):
+                out.append(upd(base, k, x))
+        else:
+            for kk in sorted(shape[k]):
+                for x in (1, 2, 3):
+                    out.append(upd(base, k, upd(base[k], kk, x)))
+            out.append(upd(base, k, upd(base[k], 2, 0)))
+    return out
+
+
+def focused_search(ck, c, prog, nk, rep):
+    """§1.4: the deduplication decision disagrees with the proved-sound model; search the implementation for a value
+    on which deduplication changes the outcome or the set of applied contracts"""
+    vals = probe_values(c["shape"])
+    if not vals:
+        return False
+    progs = [prog(dict(c, v=v), False) for v in vals]
+    rc, a, _ = core.run_lines(nk, [], ["trace\t" + m.esc(p) for p in progs])
+    rc2, b, _ = core.run_lines(nk, [], ["trace,nodedup\t" + m.esc(p) for p in progs])
+    for v, p, x, y in zip(vals, progs, a, b):
+        ox, tx = split_trace(x)
+        oy, ty = split_trace(y)
+        if ox != oy or (ox.startswith("OK") and set(tx) != set(ty)):
+            ck.violation("dedup-drops-contract", "deduplication removed a contract that is not a duplicate: with dedup %s, without %s" % (x[:80], y[:80]),
+                         dict(rep, program=p, dedup=x, nodedup=y, found_by="focused search around a disagreeing deduplication decision"))
+            return True
+    return False
 
 
 def split_trace(s):
